@@ -253,7 +253,7 @@ CHECKS = {
                    "a per-connection automaton checks order, exactly-once destroyed and reference accounting, ASan catches use of freed state, and every message a client receives must carry its own stamp",
         level_note="trusted: the automaton; a connection the application disconnects from inside connection_created is allowed to skip connection_closed (the library treats it as incomplete and the statement "
                    "only requires that closed is never invoked without created)",
-        stages=[rnd("life", "c04", 60000, 2500000, essential=["app_ref_outlives_peer", "closed_retry", "destroy_with_live_connections", "disconnect_inside_msg_process", "disconnect_inside_created",
+        stages=[rnd("life", "c04", 60000, 1500000, essential=["app_ref_outlives_peer", "closed_retry", "destroy_with_live_connections", "disconnect_inside_msg_process", "disconnect_inside_created",
                                                                 "disconnect_inside_closed", "accept_refused", "abrupt_client_close", "list_walk", "rate_limit_change", "connect_abandoned",
                                                                 "destroy_with_retry_job_pending", "shm", "socket", "send_inside_callback", "send_on_closing_connection",
                                                                 "list_walk_or_rate_limit_inside_callback"])],
@@ -272,7 +272,7 @@ CHECKS = {
                    "answered after the hostile traffic, and descriptors, loop registrations and /dev/shm entries must return to the baseline when the peers are gone",
         level_note="trusted: the bookkeeping of what was sent; heap residue is not measured (only descriptors, loop registrations and shm entries); a raw peer whose handshake asks for more than 1 MiB "
                    "is refused by the harness's accept callback (the server would otherwise legitimately allocate what it was asked for)",
-        stages=[rnd("hostile", "c06", 40000, 2000000, essential=["handshake_prefix_then_close", "handshake_split_delivery", "handshake_field_mutated", "handshake_garbage", "handshake_oversized",
+        stages=[rnd("hostile", "c06", 40000, 1200000, essential=["handshake_prefix_then_close", "handshake_split_delivery", "handshake_field_mutated", "handshake_garbage", "handshake_oversized",
                                                                   "handshake_silent_peer", "hdr_size_larger_than_sent", "hdr_size_smaller_than_sent", "hdr_size_zero_or_negative", "sent_beyond_maximum",
                                                                   "shorter_than_header", "shm", "socket", "raw_peer_accepted", "victim_dropped_by_server", "honest_message"])],
         assumptions=["the domain is message contents and handshake bytes; corrupting the shared ring's control words or the notification-byte count is outside the statement's quantifier",
